@@ -157,8 +157,24 @@ func alnRun(a align.Aligner, ref, query align.AlphabetSlicer) (out alnRunOut) {
 		}
 		out.pairs = append(out.pairs, alnPair{fs[0].Start(), fs[0].End(), fs[1].Start(), fs[1].End(), sc})
 	}
+	// the returned slice is the caller's: it is overwritten with the pairs of an earlier, unrelated answer (and
+	// truncated), so an aligner that hands out a shared value would hand the damage on to a later caller
+	out.raw = append([]feat.Pair(nil), raw...)
+	if len(raw) > 0 {
+		if alnKept == nil || (len(raw) > 1 && len(raw) < 6) {
+			alnKept = append([]feat.Pair(nil), raw...)
+		}
+		for i := range raw {
+			raw[i] = alnKept[i%len(alnKept)]
+		}
+		raw = append(raw[:0], alnKept...)
+		_ = raw
+	}
 	return
 }
+
+// alnKept is a (copied) earlier non-trivial answer used to overwrite later ones.
+var alnKept []feat.Pair
 
 func alnIdx(al alphabet.Alphabet, b []byte) []int {
 	out := make([]int, len(b))
@@ -444,8 +460,38 @@ var alnAlphas = []alnAlpha{
 func alnRandomMatrix(rng *rand.Rand, n int) [][]int {
 	m := make([][]int, n)
 	mode := rng.Intn(4)
+	// a third of the matrices are laid out as matrix.Match lays them out: rows are windows into one row-major block
+	var block []int
+	if rng.Intn(3) == 0 {
+		block = make([]int, n*n)
+	}
+	defer func() {
+		if block != nil && n > 2 && rng.Intn(2) == 0 {
+			// ... and the caller then replaces a middle row by a slice of its own (or swaps two): the rows are what counts
+			i := 1 + rng.Intn(n-2)
+			if rng.Intn(2) == 0 {
+				row := append([]int(nil), m[i]...)
+				for j := 1; j < n; j++ {
+					if j != i {
+						row[j] -= 1 + rng.Intn(4)
+					}
+				}
+				m[i] = row
+			} else {
+				j := 1 + rng.Intn(n-2)
+				m[i], m[j] = m[j], m[i]
+				for k := range m { // keep it a sensible matrix: swap the columns as well
+					m[k][i], m[k][j] = m[k][j], m[k][i]
+				}
+				m[i], m[j] = append([]int(nil), m[i]...), append([]int(nil), m[j]...)
+			}
+		}
+	}()
 	for i := range m {
 		m[i] = make([]int, n)
+		if block != nil {
+			m[i] = block[i*n : (i+1)*n]
+		}
 		for j := range m[i] {
 			switch {
 			case i == 0 && j == 0:
